@@ -25,6 +25,10 @@ Inductive sdir := SDir (name : string) (c : scond).
 
 (** Every syntactic selection set carries an identifier (the pointer identity of the *SelectionSet the
     parser allocates); [wid] of a spread identifies the wrapper the repaired parser allocates. *)
+(** [SInline "" ds id body] is an inline fragment without type condition (`... @include(if: $v) { a b }`).
+    /repo's parser rejects it at Parse (the harness then has nothing to compare); the model gives it the
+    meaning it has wherever it is accepted - a fragment on the enclosing type (Flatten does not look at
+    type conditions under an object) - so the C19 theorems read "if accepted, then as if textually pruned". *)
 Inductive snode : Type :=
 | SField (alias name key : string) (dirs : list sdir) (sub : option (nat * snodes))
 | SInline (on : string) (dirs : list sdir) (id : nat) (body : snodes)
